@@ -63,11 +63,6 @@ def freeze(out):
     return {k: _frozen(v) for k, v in out_arrays(out).items()}
 
 
-def frozen_values(fr):
-    return {k: np.frombuffer(b, dtype=np.dtype(dt)).reshape(shp) if np.dtype(dt).kind != 'U' else (dt, shp, b)
-            for k, (dt, shp, b) in fr.items()}
-
-
 def first_difference(fa, fb, bitwise=True):
     """name of the first entry in which two frozen outputs differ (None: identical).  bitwise=False compares values
     (-0.0 == 0.0), dtypes and shapes"""
